@@ -2,6 +2,7 @@ CONSTANTS
   Publishers = {"A"}
   Readers = {"r", "s"}
   RemoteReaders = {"s"}
+  LockFreeReaders = {}
   Keys <- KeysSeq
   HasCache = TRUE
   MaxFaults = 1
